@@ -4,7 +4,7 @@
 import sys, os, json, subprocess, shutil, glob, re, time
 prop, ab = sys.argv[1], sys.argv[2]
 root = sys.argv[3] if len(sys.argv) > 3 else 'sb'      # sb = round 1, sc = round 2 (directories /tmp/<root>-out, worktrees /tmp/<root>-Cxx)
-suffix = {'sb': '', 'sc': '2', 'sd': '3'}[root]
+suffix = {'sb': '', 'sc': '2', 'sd': '3', 'se': '4'}[root]
 src = '/tmp/%s-out/%s/%s' % (root, prop, ab)
 meta = json.load(open(os.path.join(src, 'meta.json')))
 sid = '%s-%s%s' % (prop, ab, suffix)
